@@ -15,7 +15,7 @@ from concurrent.futures import ThreadPoolExecutor
 from lib import common
 from lib.tlcrun import run_tlc
 
-SAMPLES = [(7, 2), (0, 3), (-1, 255), (5, 0), (2, -1), (255, 8)]
+SAMPLES = [(7, 2), (5, 0), (0, 3), (-1, 255), (2, -1), (255, 8)]      # (5, 0): faults (division by zero) early in the order
 
 
 def mc(maxops, rich, nparts, allforms):
@@ -46,12 +46,16 @@ def has_nary(t):
     return None
 
 
-def sel_value(nary, idx):
+def scenarios(nary):
+    """(selector value, index of the alternative Python picks) for a tree with one n-ary node"""
     if nary is None:
-        return 0
-    if nary["fn"] == "chooses" and nary["form"] == "kw":
-        return b"k%d" % idx
-    return idx
+        return [(0, 0)]
+    if nary["fn"] == "chooses":
+        if nary["form"] == "kw":
+            return [(b"k0", 0), (b"k1", 1)]
+        return [(0, 0), (1, 1)]
+    # if_true_then_else(condition, (value_if_true, value_if_false)): truthiness, not 0/1
+    return [(0, 1), (1, 0), (4, 0), (-2, 0)]
 
 
 def same_outcome(f, g):
@@ -115,8 +119,8 @@ def run(tier, seed):
         t = c["tree"]
         nary = has_nary(t)
         v.count_case(json.dumps(t, sort_keys=True), nontrivial=len(c["prog"]) >= 4)
-        for idx in ((0, 1) if nary else (0,)):
-            env = {"F1": rd.Term("F1"), "F2": rd.Term("F2"), "S": rd.Term("S"), "FS": sel_value(nary, idx), "K": rd.KSYM}
+        for selv, idx in scenarios(nary):
+            env = {"F1": rd.Term("F1"), "F2": rd.Term("F2"), "S": rd.Term("S"), "FS": selv, "K": rd.KSYM}
             try:
                 expr = world.build(t, None, rd.KSYM)
                 prog, steps, result = rd.observe(world, expr, env)
@@ -128,7 +132,7 @@ def run(tier, seed):
                 v.violation("C09_Program", "compiled program %r, specification %r" % (prog, c["prog"]), {"tree": t})
                 continue
             got = rd.canon(rd.tjs(result))
-            exp = rd.canon(rd.reduce_sel(c["result"], idx))
+            exp = rd.canon(rd.reduce_sel(c["result"], idx, nary))
             eager = rd.canon(rd.tjs(world.eager(t, env)))
             if got != exp or got != eager:
                 v.violation("C09_Result", "deferred %s, specification %s, eager Python %s" % (
@@ -157,14 +161,16 @@ def run(tier, seed):
         for sm in subst[: (4 if quick else len(subst))] if nary else subst:
             if n_ops(c) > 1 and (set(sm.values()) & {"pow", "lshift"}):
                 continue      # nested powers / shifts of the operand samples are astronomically large numbers
+            # compiled ONCE and evaluated on every sample in turn, like a packet class does: an evaluation that
+            # raises half-way must not disturb the next ones
+            try:
+                fn = deferred.compile_expr_into_callable(world.build(t, sm))
+            except Exception as e:
+                v.violation("C09_Result", "building raised %s" % type(e).__name__, {"tree": t, "ops": sm})
+                continue
             for (a, b) in SAMPLES[: (3 if quick else len(SAMPLES))]:
-                for idx in ((0, 1) if nary else (0,)):
-                    env = {"F1": a, "F2": b, "S": b"\x05\x06\x07\x08", "FS": sel_value(nary, idx)}
-                    try:
-                        fn = deferred.compile_expr_into_callable(world.build(t, sm))
-                    except Exception as e:
-                        v.violation("C09_Result", "building raised %s" % type(e).__name__, {"tree": t, "ops": sm})
-                        break
+                for selv, idx in scenarios(nary):
+                    env = {"F1": a, "F2": b, "S": b"\x05\x06\x07\x08", "FS": selv}
                     ok, got, exp = same_outcome(lambda: fn(rd.pkt_for(env)), lambda: world.eager(t, env, sm))
                     conc += 1
                     if not ok:
@@ -182,8 +188,7 @@ def run(tier, seed):
         if not well_formed(t):
             continue
         nary = has_nary(t)
-        idx = rnd.randint(0, 1)
-        env = {"F1": rd.Term("F1"), "F2": rd.Term("F2"), "S": rd.Term("S"), "FS": sel_value(nary, idx), "K": rd.KSYM}
+        env = {"F1": rd.Term("F1"), "F2": rd.Term("F2"), "S": rd.Term("S"), "FS": rnd.randint(0, 1), "K": rd.KSYM}
         try:
             prog, steps, result = rd.observe(world, world.build(t, None, rd.KSYM), env)
         except Exception as e:
